@@ -127,8 +127,26 @@ C04_HoldsAt(old, sd, out) ==
            [] want.k \in {"MergeError", "PremergeError"} -> IsErr(out) /\ out.err = want.k
            [] OTHER -> ~IsErr(out) /\ DataOf(out) = DataOf(want)
 
+\* What protects an entry from a later deleting node is ITS OWN priority - the one its own document gave it (its tag, or the
+\* tag of a container around it in that document), not one picked up from the container it was merged into.  Decidable when
+\* the value identifies the document: a scalar whose atom is written in exactly one document of the history carries a
+\* priority that document's parse gives to that atom.
+RECURSIVE C04_ScalarNodes(_)
+C04_ScalarNodes(n) == (IF n.k = "scalar" THEN {n} ELSE {}) \cup UNION {C04_ScalarNodes(n.ch[i][2]) : i \in 1..Len(n.ch)}
+RECURSIVE C04_SDAtoms(_)
+C04_SDAtoms(sd) == (IF sd.k = "scalar" THEN {sd.v} ELSE {}) \cup UNION {C04_SDAtoms(sd.ch[i][2]) : i \in 1..Len(sd.ch)}
+C04_PrOwn(docs, outs) ==
+    \A j \in 1..Len(outs) : ~IsErr(outs[j]) =>
+        \A leaf \in C04_ScalarNodes(outs[j]) :
+            LET owners == {i \in 1..j : leaf.v \in C04_SDAtoms(docs[i])}
+            IN (Cardinality(owners) = 1 /\ leaf.v # C04_Null) =>
+                   LET i == CHOOSE i \in owners : TRUE
+                       p == Parse(docs[i], TRUE)
+                   IN IsErr(p) \/ leaf.pr \in {n.pr : n \in {m \in C04_ScalarNodes(p) : m.v = leaf.v}}
+
 C04_Holds(docs, outs) ==
-    \A j \in 2..Len(outs) : ~IsErr(outs[j-1]) => C04_HoldsAt(outs[j-1], docs[j], outs[j])
+    /\ \A j \in 2..Len(outs) : ~IsErr(outs[j-1]) => C04_HoldsAt(outs[j-1], docs[j], outs[j])
+    /\ C04_PrOwn(docs, outs)
 
 C04_Judged(docs, outs) ==    \* is some stage inside the domain and decided by the oracle?
     \E j \in 2..Len(outs) : ~IsErr(outs[j-1]) /\
@@ -189,5 +207,46 @@ C04_NewS(d) ==
 C04_NewDocsS == {SD("dict", NoVal, <<<<C04_KA, c>>>>) : c \in C04_NewS(2)}
 C04_Docs3    == SetToSeq(C04_OldS) \o SetToSeq(C04_NewDocsS)
 C04_Range3   == << <<1, Cardinality(C04_OldS)>>, <<Cardinality(C04_OldS) + 1, Cardinality(C04_OldS) + Cardinality(C04_NewDocsS)>> >>
+
+\* 3-stage histories with one atom per stage (1 / 3 / 4): a prioritised container, a later plain document adding entries to
+\* it, then a deleting node - only what the first document tagged survives
+C04_P1 == {SD("dict", NoVal, <<<<C04_KA, c>>>>) :
+              c \in {WithTag(SD("dict", NoVal, <<<<SKey("x"), C04_L(C04_V1)>>>>), "force"),
+                     WithTag(SD("dict", NoVal, <<<<SKey("x"), SD("dict", NoVal, <<<<SKey("y"), C04_L(C04_V1)>>>>)>>>>), "force"),
+                     WithTag(SD("list", NoVal, <<<<IKey(0), C04_L(C04_V1)>>>>), "force"),
+                     SD("dict", NoVal, <<<<SKey("x"), WithTag(C04_L(C04_V1), "force")>>>>),
+                     WithTag(SD("dict", NoVal, <<<<SKey("x"), C04_L(C04_V1)>>>>), "weak"),
+                     SD("dict", NoVal, <<<<SKey("x"), C04_L(C04_V1)>>>>)}}
+C04_P2 == {SD("dict", NoVal, <<<<C04_KA, c>>>>) :
+              c \in {SD("dict", NoVal, <<<<SKey("y"), C04_L(C04_V3)>>>>),
+                     SD("dict", NoVal, <<<<SKey("x"), SD("dict", NoVal, <<<<SKey("z"), C04_L(C04_V3)>>>>)>>>>),
+                     SD("dict", NoVal, <<<<SKey("x"), C04_L(C04_V3)>>>>),
+                     WithTag(SD("dict", NoVal, <<<<SKey("y"), C04_L(C04_V3)>>>>), "force"),
+                     WithTag(SD("list", NoVal, <<<<IKey(0), C04_L(C04_V1)>>, <<IKey(1), C04_L(C04_V3)>>>>), "merge")}}
+C04_P3 == {SD("dict", NoVal, <<<<C04_KA, c>>>>) :
+              c \in {WithTag(SD("dict", NoVal, <<>>), "del"),
+                     WithTag(SD("dict", NoVal, <<<<SKey("w"), C04_L(C04_V4)>>>>), "del"),
+                     WithTag(SD("dict", NoVal, <<<<SKey("x"), WithTag(SD("dict", NoVal, <<>>), "del")>>>>), "merge"),
+                     SD("list", NoVal, <<<<IKey(0), C04_L(C04_V4)>>>>),
+                     SD("dict", NoVal, <<<<SKey("w"), C04_L(C04_V4)>>>>)}}
+               \cup {WithTag(SD("dict", NoVal, <<<<SKey("w"), C04_L(C04_V4)>>>>), "del")}
+\* keys whose NAME looks like a path ('x.y', 'x[0]') next to the entries such a path would spell
+C04_K1 == {SD("dict", NoVal, <<<<C04_KA, c>>>>) :
+              c \in {SD("dict", NoVal, <<<<SKey("x.y"), C04_L(C04_V1)>>, <<SKey("x"), SD("dict", NoVal, <<<<SKey("y"), C04_L(C04_V1)>>>>)>>>>),
+                     SD("dict", NoVal, <<<<SKey("x[0]"), C04_L(C04_V1)>>, <<SKey("x"), SD("list", NoVal, <<<<IKey(0), C04_L(C04_V1)>>>>)>>>>),
+                     SD("dict", NoVal, <<<<SKey("x y"), C04_L(C04_V1)>>, <<SKey("x"), C04_L(C04_V1)>>>>)}}
+C04_K2 == {SD("dict", NoVal, <<<<C04_KA, c>>>>) :
+              c \in {WithTag(SD("dict", NoVal, <<<<SKey("x"), SD("dict", NoVal, <<<<SKey("y"), WithTag(C04_L(C04_V2), "weak")>>>>)>>>>), "del"),
+                     WithTag(SD("dict", NoVal, <<<<SKey("x"), SD("dict", NoVal, <<<<SKey("y"), C04_L(C04_V2)>>>>)>>>>), "del"),
+                     WithTag(SD("dict", NoVal, <<<<SKey("x"), WithTag(SD("list", NoVal, <<<<IKey(0), WithTag(C04_L(C04_V2), "weak")>>>>), "merge")>>>>), "del"),
+                     WithTag(SD("dict", NoVal, <<<<SKey("x"), WithTag(C04_L(C04_V2), "weak")>>>>), "del"),
+                     WithTag(SD("dict", NoVal, <<>>), "del"),
+                     SD("dict", NoVal, <<<<SKey("x.y"), C04_L(C04_V2)>>>>)}}
+C04_DocsK  == SetToSeq(C04_K1) \o SetToSeq(C04_K2)
+C04_RangeK == << <<1, Cardinality(C04_K1)>>, <<Cardinality(C04_K1) + 1, Cardinality(C04_K1) + Cardinality(C04_K2)>> >>
+
+C04_DocsP  == SetToSeq(C04_P1) \o SetToSeq(C04_P2) \o SetToSeq(C04_P3)
+C04_RangeP == << <<1, Cardinality(C04_P1)>>, <<Cardinality(C04_P1) + 1, Cardinality(C04_P1) + Cardinality(C04_P2)>>,
+                 <<Cardinality(C04_P1) + Cardinality(C04_P2) + 1, Cardinality(C04_P1) + Cardinality(C04_P2) + Cardinality(C04_P3)>> >>
 
 =============================================================================
